@@ -10,8 +10,8 @@ skipped (virtual) step (`summed_grad`, the skip queue) are not part of any `stat
 
 Python aliasing that matters is explicit: accountant histories are list *objects* in a heap;
 `state_dict()` deep-copies (fresh object), `load_state_dict()` binds `self.history` to the very
-list object of the dict it is given, RDP/PRV `step` mutate the list in place, GDP `step` pops in
-place and then rebinds `self.history` to a fresh list.
+list object of the dict it is given, RDP/PRV `step` mutate the list in place, GDP `step` reads the
+last entry and rebinds `self.history` to a fresh list (it never mutates the old list object).
 
 Generic in the scalar `R` (noise multiplier, clipping norm, sample rate), in the parameter value
 `P`, the inner-optimizer state `O` and the batch identifier `B`; the training step itself is a
@@ -74,8 +74,9 @@ def Acct.step {R} [BEq R] (a : Acct) (hp : Heap R) (σ q : R) : Except Err (Acct
     | none => let r := hp.alloc [(σ, q, 1)]; .ok ({ a with href := r.2 }, r.1)
     | some (σ', q', n) =>
       if σ' == σ && q' == q then
-        let hp1 := hp.set a.href (hp.get a.href).dropLast        -- `self.history.pop()`
-        let r := hp1.alloc [(σ', q', n + 1)]                       -- `self.history = [...]`
+        -- `self.history[-1]` is only read (since fix bb38b4c; it used to be `self.history.pop()`,
+        -- which emptied an aliased state_dict list), then `self.history = [...]` rebinds
+        let r := hp.alloc [(σ', q', n + 1)]
         .ok ({ a with href := r.2 }, r.1)
       else .error .gdpHeterogeneous
 
